@@ -6,4 +6,28 @@ CLAIMS = {
         "technique": "Coq proof over executable model + extracted-model correspondence check",
     },
 }
+CLAIMS["C01"]["text"] = ("Proof (Coq): for ANY chain of admissible formatting steps (arbitrary counters from spacing and the wrapper, keyword lower-casing, comment/directive normalisation, re-indentation of multi-line strings) and any settings, fold(nonblank(reconstruct)) = fold(nonblank(token contents)) (C01_chain_preserves_nonblank); the stage list regenerated from make_formatter is proved to have exactly that admissible shape and the set_content sites are proved to be the modelled ones (vm_compute over generated tables; a TokenRemover or a new rule breaks the obligation). Every modelled stage (settings, lowercase, comment formatter, EofNewline, reconstruct) is diffed against the real stage on every case by the extracted model; the oracle compares fold(nonblank) of input and output of the real formatter. Partial: lexer losslessness is monitored per token (tok_ok) until the lexer model's theorem is integrated.")
+
+_COMMON_NOTE = ("Trusted: Coq kernel (coqc 8.16.1, vm_compute for generated tables); hand model under coq/theories/Model tied to the Rust by differential execution of the extracted model (ExtrOcamlBasic only) on stage traces of the real pipeline; translator gen/rs2v*.py; Rust harness replica of make_formatter (compared with the real one on every case); Python generators/oracles. ")
+
+CLAIMS["C07"] = {
+    "text": "Proof (Coq): a run of ignored tokens is reconstructed byte for byte (leading whitespace and content) for all counters and settings unless the safety net fires inside it (C07_ignored_run_verbatim, C07_region); no admissible formatting stage changes text, whitespace or mark of an ignored token (C07_ignored_untouched_by_stages). The toggle grammar / asm marking / line voiding model is diffed against the real ignore marks and voided lines on every case. Oracle: region substring equality in the real output for regions at random token gaps, 9 toggle spellings (LF, CRLF, lone CR), asm bodies, near-miss spellings. Partial: which lines are asm instruction lines is the parser's decision (oracle).",
+    "note": _COMMON_NOTE + "Assumed: no_net for lexer tokens (a line comment is followed by a line break) — monitored by the region oracle.",
+    "technique": "Coq proof over executable model + extracted-model correspondence check",
+}
+CLAIMS["C08"] = {
+    "text": "Proof (Coq), partial: for every decided token the emitted whitespace is exactly line-breaks + a whole number of indentation units (line start) or spaces only (continuation), for all settings (C08_line_start, C08_continue, C08_indentation_units), the stage order is proved on the generated list, and the saturated configuration class is refuted (F13). That the wrapper's plan is canonical (canon_fmt: no spaces at a line start, at most one space otherwise, at most one blank line, none at the start) and that no content ends in a blank before a break are acceptance predicates defined in Coq and evaluated by extracted code on the real final state of every case (hypothesis H-W1, monitored, not proved). Text-level scan of the real output for blank lines, indentation units and the end-of-file clause.",
+    "note": _COMMON_NOTE + "Hypothesis H-W1 (plan canonical) is validated per case, not proved; excluded classes: F3/F7 trailing blanks, F13 saturation, lines without a wrapping solution.",
+    "technique": "Coq proof over executable model + extracted acceptance predicates on real traces",
+}
+CLAIMS["C09"] = {
+    "text": "Proof (Coq), partial: reconstruct's output is a rendering of newline-independent pieces, every emitted break is the configured newline, hence for the same formatted tokens the crlf output is the lf output with each emitted terminator substituted (C09_crlf_is_subst). That the plan itself does not depend on the newline string (H-W2) and that CRLF input lexes like LF input are validated by differential runs of the real formatter (lf/crlf configuration pairs, LF/CRLF input pairs), not proved.",
+    "note": _COMMON_NOTE + "H-W2 validated by differential execution.",
+    "technique": "Coq proof over executable model + differential oracle",
+}
+CLAIMS["C10"] = {
+    "text": "Proof (Coq), partial: the settings conversion and the rendering of indentation are proved: tabs expanded to tab_width spaces give the soft-tab indentation, indentation = (levels + ci*continuations) units, for all values with ci*tw <= 255; refuted beyond (F13, witness). The conversion From<&FormattingConfig> is diffed against the model on a grid (exhaustive 2x256x256 in the thorough tier). That the plan does not depend on the widths when wrap_column is unconstrained (H-W3) is validated by pairwise runs of the real formatter.",
+    "note": _COMMON_NOTE + "H-W3 validated by differential execution.",
+    "technique": "Coq proof over executable model + exhaustive settings grid + differential oracle",
+}
 NOT_CLAIMED = {}
